@@ -392,7 +392,8 @@ class Loader:
                 alloc = alloc.get_sub_alloc(part)
 
             capacity = resources(obj)
-            alloc.update(capacity, obj['rank'], obj.get('rank_adjustment'),
+            alloc.update(capacity, obj['rank'],
+                         obj.get('rank_adjustment') or 0,
                          obj.get('max_utilization'))
 
             trait_list = obj.get('traits', [])
